@@ -23,7 +23,7 @@ KS = Schema('KS', [
     Opt('sec', 'e', 'MT', sub=[Opt('int', 'n', '', 1)]),
     Opt('func', 'f', '', None, 'u'), Opt('bool', 't', '', False), Opt('float', 'v', '', 1.5),
     Opt('sec', 'x', '', sub=[Opt('str', 'r', 'L', [b'a'])]),
-    Opt('ptr', 'z', 'L', None, 'pf'), Opt('sec', 'c', 'K', sub=[]),
+    Opt('ptr', 'z', 'L', None, 'pf'), Opt('sec', 'c', 'K', sub=[]), Opt('sec', 'k2', 'K', sub=[Opt('str', 'd0', '', b'v'), Opt('int', 'd1', '', 1)]),
     Opt('func', 'include', '', None, 'i')])
 FLAGSETS = [0, CFGF['COMMENTS'], CFGF['IGNORE_UNKNOWN'], CFGF['NOCASE'],
             CFGF['COMMENTS'] | CFGF['IGNORE_UNKNOWN'] | CFGF['NOCASE']]
@@ -336,6 +336,7 @@ def shapes(nmax):
         out.append(('reopen-single-section', n, 0, b'x { r += { b } } ' * n))
         out.append(('assignments', n, 0, b't = on ' * n))
         out.append(('free-form-keys', min(n, 10000), 0, b'c { ' + b''.join(b'k%d = v ' % k for k in range(min(n, 10000))) + b'}'))
+        out.append(('free-form-keys-beside-declared-options', min(n, 10000), 0, b'k2 { ' + b''.join(b'k%d = v ' % k for k in range(min(n, 10000))) + b'd1 = 3 }'))
         out.append(('ptr-values', n, 0, b'z = {' + b','.join([b'p'] * n) + b'}'))
     for n in sorted(set(sizes + bounds)):
         if n > nmax:
@@ -414,7 +415,8 @@ def shard_sources(shard):
             cases.append((robust_case('KS', fl, ('i%d.conf' % k).encode(), None, 'parse', pre=fix, fork=True, horizon=20, quiet=True), True))
             cases.append((robust_case('KS', fl, root.encode() + ('/t%d.conf' % k).encode(), None, 'parse', pre=fix, fork=True, horizon=20, quiet=True), True))
         for target in (b'd', b'empty.conf', b'/dev/null', b'nope.conf', b'self.conf', b'incdir.conf', b'incnull.conf', b'incmissing.conf',
-                       b'', b'~', b'~/', b'~me', b'~me/', b'~nouser', b'~/nope.conf', b'~me/nope.conf', b'~~', b'/', b'.', b'..'):
+                       b'', b'~', b'~/', b'~me', b'~me/', b'~nouser', b'~/nope.conf', b'~me/nope.conf', b'~~', b'/', b'.', b'..',
+                       b'/proc/self/mem'):      # a regular file whose read fails (EIO)
             cases.append((robust_case('KS', fl, target, None, 'parse', pre=fix, fork=True, horizon=20, quiet=True), True))
             cases.append((robust_case('KS', fl, b'include("' + target + b'") b = z', None, 'parse_buf', pre=fix, fork=True, horizon=20, quiet=True), False))
     # diagnostics without a user error function go to stderr (never stdout); declarations with a repeated name only draw a diagnostic
@@ -532,7 +534,7 @@ def main():
                          alphabet=len(REDUCED), flagsets=2)
     ck.assumptions = ['the byte alphabet has one representative of every equivalence class of the generated scanner (recomputed at build time) '
                       'plus the bytes whose value the actions inspect; strings longer than the bound are covered only by the shape families',
-                      'read errors on an open stream are not injected', 'stack limit 8 MiB']
+                      'read errors are not injected at arbitrary points; one target (/proc/self/mem) is a file whose first read fails', 'stack limit 8 MiB']
     ck.finish('byte strings: full product over the alphabet; E1 token sequences under 5 context-flag sets; shape families by (name, n, source); '
               'non-trivial = distinct (prefix shard, outcome hash) / distinct texts with at least one completed item / distinct shapes')
 
